@@ -543,3 +543,30 @@ pub fn json_to_bytes(v: &Value) -> Vec<u8> {
         })
         .collect()
 }
+
+/// Parallel map over items in up to `threads` scoped threads; order preserved.
+pub fn par_map<T: Sync, R: Send, F: Fn(&T) -> R + Sync>(items: &[T], threads: usize, f: F) -> Vec<R> {
+    if items.is_empty() {
+        return vec![];
+    }
+    let threads = threads.max(1).min(items.len());
+    let chunk = items.len().div_ceil(threads);
+    let mut out: Vec<Vec<R>> = Vec::new();
+    std::thread::scope(|s| {
+        let handles: Vec<_> = items
+            .chunks(chunk)
+            .map(|c| {
+                let f = &f;
+                s.spawn(move || c.iter().map(f).collect::<Vec<R>>())
+            })
+            .collect();
+        for h in handles {
+            out.push(h.join().expect("worker thread panicked"));
+        }
+    });
+    out.into_iter().flatten().collect()
+}
+
+pub fn ncpu() -> usize {
+    std::thread::available_parallelism().map(|n| n.get()).unwrap_or(4)
+}
